@@ -198,8 +198,11 @@ def _directed_memo(chk):
     memo.check_modules(chk, "C03.c-memo", [BASE], floor=2, what="hand-rolled caches of compiled right-hand sides")
 
 
-def _directed_semantics(chk):
-    """_DirectedSystem's compiled wrapper: fwd=+1 -> g, fwd=-1 & no flip -> -g, partial flip -> partial."""
+def _directed_semantics(chk, signed_time=False):
+    """_DirectedSystem's compiled wrapper: fwd=+1 -> g, fwd=-1 & no flip -> -g, partial flip -> partial.
+
+    signed_time (C10, user right-hand sides): the base system is evaluated at the signed time fwd*t.  For the autonomous
+    systems of C03 the time argument is immaterial and either sign is accepted."""
     n = 4
     for fwd, flip, expect in ((1, None, "+"), (-1, None, "-"), (-1, slice(0, n), "-"), (-1, slice(2, n), "partial")):
         g = UFunc("g", n)
@@ -215,7 +218,12 @@ def _directed_semantics(chk):
         y = to_obj_array([sp.Symbol(f"y{k}") for k in range(n)])
         t = sp.Symbol("t")
         got = to_obj_array(ip.apply(rhs, [t, y.copy()], {}))
-        ref = to_obj_array(ip.apply_ufunc(g, [t, y]))
+        # a backward propagation over the unsigned time s = -t integrates dy/ds = -f(-s, y): for a time-dependent right-hand
+        # side the base system has to be evaluated at the signed time
+        ref = to_obj_array(ip.apply_ufunc(g, [fwd * t, y]))
+        if not signed_time:
+            got = to_obj_array([S(v).subs(-t, t) if S(v).has(-t) else v for v in got])
+            ref = to_obj_array(ip.apply_ufunc(g, [t, y]))
         if expect == "+":
             ok = all(got[k] == ref[k] for k in range(n))
         elif expect == "-":
